@@ -83,6 +83,8 @@ def parse(out: str) -> TlcResult:
         r.violated.append(m.group(1))
     for m in re.finditer(r"Error: Action property (\w+) is violated", out):
         r.violated.append(m.group(1))
+    for m in re.finditer(r"Error: Action property line \d+, col \d+ to line \d+, col \d+ of module (\w+) is violated", out):
+        r.violated.append("ActionProperty_" + m.group(1))      # an un-named action property (a refinement [][Next]_v of that module)
     if "Temporal properties were violated" in out:
         r.violated.append("Temporal")
     if "Error: Deadlock reached" in out:
